@@ -7,6 +7,7 @@ the constraint parser on texts with several clauses (`SplitSound`).
 import PoetryVerif.Proofs.MarkerProj
 import PoetryVerif.Proofs.MarkerShape
 import PoetryVerif.Proofs.PyConvNorm
+import PoetryVerif.Proofs.PyConvShape
 
 set_option linter.unusedSimpArgs false
 set_option linter.unusedVariables false
@@ -191,17 +192,17 @@ theorem dedup_mem (gs : List (List (String × String))) (g : List (String × Str
 `SingleMarker` with a comparison operator whose normalised clause means the truth of `l` -/
 def LeafClause (ev : Leaf → Bool) (X Y Z : Nat) (l : Leaf) : Prop :=
   ∃ s item, l = .single s ∧ RelOp s.op ∧ normalizePyPair s.op s.value = .ok item ∧
-    ClauseMeans item X Y Z (ev l)
+    ClauseMeans item X Y Z (ev l) ∧ ItemShape item
 
 theorem group_items (X Y Z : Nat) (g : List Leaf) (hL : ∀ l ∈ g, LeafClause ev X Y Z l) :
     ∃ items : List String, (g.map leafPair).mapM (fun p => normalizePyPair p.1 p.2) = .ok items ∧
       (∀ p ∈ g.map leafPair, RelOp p.1) ∧ items.length = g.length ∧
-      (∀ it ∈ items, ∃ l ∈ g, ClauseMeans it X Y Z (ev l)) ∧
+      (∀ it ∈ items, ∃ l ∈ g, ClauseMeans it X Y Z (ev l) ∧ ItemShape it) ∧
       (∀ l ∈ g, ∃ it ∈ items, ClauseMeans it X Y Z (ev l)) := by
   induction g with
   | nil => exact ⟨[], rfl, by simp, rfl, by simp, by simp⟩
   | cons l ls ih =>
-    obtain ⟨s, item, rfl, hop, hitem, hmean⟩ := hL l (by simp)
+    obtain ⟨s, item, rfl, hop, hitem, hmean, hshape⟩ := hL l (by simp)
     obtain ⟨items, h1, h2, h3, h4, h5⟩ := ih (fun x hx => hL x (by simp [hx]))
     refine ⟨item :: items, ?_, ?_, by simp [h3], ?_, ?_⟩
     · simp only [List.map_cons, List.mapM_cons, leafPair, hitem, bind, Except.bind, h1, pure, Except.pure]
@@ -212,7 +213,7 @@ theorem group_items (X Y Z : Nat) (g : List Leaf) (hL : ∀ l ∈ g, LeafClause 
       · exact h2 p hp
     · intro it hit
       rcases List.mem_cons.1 hit with rfl | hit
-      · exact ⟨_, by simp, hmean⟩
+      · exact ⟨_, by simp, hmean, hshape⟩
       · obtain ⟨l, hl, hm⟩ := h4 it hit; exact ⟨l, by simp [hl], hm⟩
     · intro l hl
       rcases List.mem_cons.1 hl with rfl | hl
@@ -224,18 +225,18 @@ theorem normMarkers_groups (X Y Z : Nat) (gs : List (List Leaf))
     ∃ itemss : List (List String),
       normalizePyMarkers (gs.map (·.map leafPair)) = .ok (joinWith " || " (itemss.map (joinWith " "))) ∧
       itemss.length = gs.length ∧
-      (∀ g ∈ gs, ∃ items ∈ itemss, items.length = g.length ∧ (∀ it ∈ items, ∃ l ∈ g, ClauseMeans it X Y Z (ev l)) ∧
+      (∀ g ∈ gs, ∃ items ∈ itemss, items.length = g.length ∧ (∀ it ∈ items, ∃ l ∈ g, ClauseMeans it X Y Z (ev l) ∧ ItemShape it) ∧
         (∀ l ∈ g, ∃ it ∈ items, ClauseMeans it X Y Z (ev l))) ∧
-      (∀ items ∈ itemss, ∃ g ∈ gs, items.length = g.length ∧ (∀ it ∈ items, ∃ l ∈ g, ClauseMeans it X Y Z (ev l)) ∧
+      (∀ items ∈ itemss, ∃ g ∈ gs, items.length = g.length ∧ (∀ it ∈ items, ∃ l ∈ g, ClauseMeans it X Y Z (ev l) ∧ ItemShape it) ∧
         (∀ l ∈ g, ∃ it ∈ items, ClauseMeans it X Y Z (ev l))) := by
   have key : ∃ itemss : List (List String),
       (gs.map (·.map leafPair)).mapM (fun conj => do
         let alts ← normalizePyConj conj [[]]
         pure (alts.map (joinWith " "))) = .ok (itemss.map (fun items => [joinWith " " items])) ∧
       itemss.length = gs.length ∧
-      (∀ g ∈ gs, ∃ items ∈ itemss, items.length = g.length ∧ (∀ it ∈ items, ∃ l ∈ g, ClauseMeans it X Y Z (ev l)) ∧
+      (∀ g ∈ gs, ∃ items ∈ itemss, items.length = g.length ∧ (∀ it ∈ items, ∃ l ∈ g, ClauseMeans it X Y Z (ev l) ∧ ItemShape it) ∧
         (∀ l ∈ g, ∃ it ∈ items, ClauseMeans it X Y Z (ev l))) ∧
-      (∀ items ∈ itemss, ∃ g ∈ gs, items.length = g.length ∧ (∀ it ∈ items, ∃ l ∈ g, ClauseMeans it X Y Z (ev l)) ∧
+      (∀ items ∈ itemss, ∃ g ∈ gs, items.length = g.length ∧ (∀ it ∈ items, ∃ l ∈ g, ClauseMeans it X Y Z (ev l) ∧ ItemShape it) ∧
         (∀ l ∈ g, ∃ it ∈ items, ClauseMeans it X Y Z (ev l))) := by
     induction gs with
     | nil => exact ⟨[], rfl, rfl, by simp, by simp⟩
@@ -273,7 +274,7 @@ here as an explicit hypothesis — when every clause is readable, the text is re
 clauses of one group do, and rejects it if in every group some clause does -/
 def SplitSound (X Y Z : Nat) : Prop :=
   ∀ gs : List (List String), gs ≠ [] → (∀ g ∈ gs, g ≠ []) →
-    (∀ g ∈ gs, ∀ it ∈ g, ∃ b, ClauseMeans it X Y Z b) →
+    (∀ g ∈ gs, ∀ it ∈ g, ItemShape it ∧ ∃ b, ClauseMeans it X Y Z b) →
     ((∃ g ∈ gs, ∀ it ∈ g, ClauseMeans it X Y Z true) →
       ClauseMeans (joinWith " || " (gs.map (joinWith " "))) X Y Z true) ∧
     ((∀ g ∈ gs, ∃ it ∈ g, ClauseMeans it X Y Z false) →
@@ -381,9 +382,9 @@ theorem gpc_upper (S : LeafSpec ev G) (X Y Z : Nat) (m : M) (g : VC) (hg : M.Goo
                       rw [h1] at hp
                       obtain ⟨l0, hl0, hpe⟩ := List.mem_map.1 hp
                       have hev0 := h4 hc2 l0 hl0
-                      obtain ⟨s0, item0, rfl, _, hitem0, hmean0⟩ := hL l0
+                      obtain ⟨s0, item0, rfl, _, hitem0, hmean0, _⟩ := hL l0
                         (good_leaves c (good_membersIfUnion d hds.1 c hc1) l0 (h3 l0 hl0)) (h2 l0 hl0)
-                      obtain ⟨s1, item1, rfl, _, hitem1, hmean1⟩ := hgsL ls' hls' l hl
+                      obtain ⟨s1, item1, rfl, _, hitem1, hmean1, _⟩ := hgsL ls' hls' l hl
                       simp only [leafPair, Prod.mk.injEq] at hpe
                       rw [hpe.1, hpe.2, hitem1] at hitem0
                       injection hitem0 with hitem0; subst hitem0
@@ -393,7 +394,7 @@ theorem gpc_upper (S : LeafSpec ev G) (X Y Z : Nat) (m : M) (g : VC) (hg : M.Goo
                       rw [hvc0] at hvc1; injection hvc1 with hvc1; subst hvc1
                       rw [hb0] at hb1
                       rw [← hb1] at hm
-                      exact hm
+                      exact hm.1
                     have hne : itemss ≠ [] := List.ne_nil_of_mem hit
                     have hnn : ∀ its ∈ itemss, its ≠ [] := by
                       intro its hits
@@ -407,11 +408,11 @@ theorem gpc_upper (S : LeafSpec ev G) (X Y Z : Nat) (m : M) (g : VC) (hg : M.Goo
                       have : ([] : List (String × String)) ∈ gsL.map (·.map leafPair) :=
                         List.mem_map.2 ⟨[], hg', rfl⟩
                       simpa using this
-                    have hpar : ∀ its ∈ itemss, ∀ it ∈ its, ∃ b, ClauseMeans it X Y Z b := by
+                    have hpar : ∀ its ∈ itemss, ∀ it ∈ its, ItemShape it ∧ ∃ b, ClauseMeans it X Y Z b := by
                       intro its hits it hi
                       obtain ⟨g', hg', _, hh, _⟩ := k4 its hits
                       obtain ⟨l, _, hm⟩ := hh it hi
-                      exact ⟨_, hm⟩
+                      exact ⟨hm.2, _, hm.1⟩
                     obtain ⟨vc, hvc, hb⟩ := (hSp itemss hne hnn hpar).1 ⟨items, hit, htrue⟩
                     rw [hvc] at h; injection h with h; subst h
                     exact hb
@@ -697,11 +698,11 @@ theorem gpc_exact (S : LeafSpec ev G) (X Y Z : Nat) (m : M) (g : VC) (hg : M.Goo
                         have : ([] : List (String × String)) ∈ gsL.map (·.map leafPair) :=
                           List.mem_map.2 ⟨[], hg', rfl⟩
                         simpa using this
-                      have hpar : ∀ its ∈ itemss, ∀ it ∈ its, ∃ b, ClauseMeans it X Y Z b := by
+                      have hpar : ∀ its ∈ itemss, ∀ it ∈ its, ItemShape it ∧ ∃ b, ClauseMeans it X Y Z b := by
                         intro its hits it hi
                         obtain ⟨g', hg', _, hh, _⟩ := k4 its hits
                         obtain ⟨l, _, hm⟩ := hh it hi
-                        exact ⟨_, hm⟩
+                        exact ⟨hm.2, _, hm.1⟩
                       -- every group has a clause that rejects the interpreter
                       have hfalse : ∀ its ∈ itemss, ∃ it ∈ its, ClauseMeans it X Y Z false := by
                         intro its hits
@@ -733,8 +734,8 @@ theorem gpc_exact (S : LeafSpec ev G) (X Y Z : Nat) (m : M) (g : VC) (hg : M.Goo
                           · have := h2 l0 hl0
                             simp only [M.leaves] at this
                             exact leavesList_py ms hms l0 this
-                        obtain ⟨s0, item0, rfl, _, hitem0, hmean0⟩ := hL l0 hG0 hk0
-                        obtain ⟨s1, item1, rfl, _, hitem1, hmean1⟩ := hgsL g' hg' l' hl'
+                        obtain ⟨s0, item0, rfl, _, hitem0, hmean0, _⟩ := hL l0 hG0 hk0
+                        obtain ⟨s1, item1, rfl, _, hitem1, hmean1, _⟩ := hgsL g' hg' l' hl'
                         simp only [leafPair, Prod.mk.injEq] at hpe
                         rw [← hpe.1, ← hpe.2, hitem1] at hitem0
                         injection hitem0 with hitem0; subst hitem0
